@@ -44,6 +44,7 @@ type Reader struct {
 type ConcSpec struct {
 	Writers []Writer `json:"writers"`
 	Readers []Reader `json:"readers"`
+	Shared  []Shared `json:"shared,omitempty"` // files written and read through ONE fid by several goroutines, see shared.go
 }
 
 // chunk returns the self-describing payload of chunk i of writer w: a header
@@ -111,10 +112,26 @@ func runConc(c *Case) error {
 	}
 
 	n := len(sp.Writers) + len(sp.Readers)
-	errs := make([]error, n)
-	ops := make([]int, n)
+	errs := make([]error, n+len(sp.Shared))
+	ops := make([]int, n+len(sp.Shared))
 	var wg sync.WaitGroup
 	start := make(chan struct{})
+
+	// files shared by several goroutines through one fid (shared.go)
+	smodels := make([][]byte, len(sp.Shared))
+	for si := range sp.Shared {
+		m, e := sharedPrepare(root, si, &sp.Shared[si])
+		if e != nil {
+			return e
+		}
+		smodels[si] = m
+		wg.Add(1)
+		go func(si int) {
+			defer wg.Done()
+			<-start
+			ops[n+si], errs[n+si] = runShared(clnt, pfx, u, si, &sp.Shared[si], smodels[si])
+		}(si)
+	}
 
 	for wi := range sp.Writers {
 		wg.Add(1)
@@ -326,8 +343,16 @@ func runConc(c *Case) error {
 		hx.Label("concurrent reader helper=" + r.Helper)
 		hx.NonTrivial("conc", nm, c.Dotu, r.Helper, gClass(n), cntClass(uint64(r.Count), u), lenClass(uint64(r.Len), u))
 	}
+	for si := range sp.Shared {
+		sharedCoverage(nm, c.Dotu, u, &sp.Shared[si])
+	}
 	for _, err := range errs {
 		if err != nil {
+			return err
+		}
+	}
+	for si := range sp.Shared {
+		if err := sharedDisk(root, pfx, si, &sp.Shared[si], smodels[si]); err != nil {
 			return err
 		}
 	}
